@@ -49,6 +49,15 @@ var c15Datasets = []c15Dataset{
 		},
 		Table: ".config", Row: ".name", Col: "/k",
 	},
+	{
+		// (iv) one column of four rows with irregular values: any summation
+		// over the rows in a different order changes the last bits of the geomean
+		Name: "4rows-irregular",
+		Files: []string{
+			"BenchmarkA 1 101.3 ns/op\nBenchmarkB 1 57.77 ns/op\nBenchmarkC 1 1234.5 ns/op\nBenchmarkD 1 3.14159 ns/op\nBenchmarkE 1 0.7071 ns/op\n",
+		},
+		Table: ".config", Row: ".fullname", Col: ".file",
+	},
 }
 
 // c15Body builds everything afresh, adds the results, computes the tables and
